@@ -32,6 +32,14 @@ def make_shards(tier, seed, prop):
                             facts=dict(kind=kind, Rc=Rc, Rx=Rx, Dx=Dx, Dy=Dy),
                         )
                     )
+    # a light pass on larger sizes (one batch layout each way, first catalogue entry + the seed-generic one)
+    if tier == "quick":
+        for kind in ("full", "diag", "identity"):
+            for (Rc, Rx) in ((1, 4), (4, 1)):
+                for (Dx, Dy) in ((4, 4), (4, 2), (2, 4)):
+                    if kind == "identity" and Dx != Dy:
+                        continue
+                    out.append(dict(id="%s/%s/Rc%d.Rx%d/Dx%d.Dy%d/big" % (prop, kind, Rc, Rx, Dx, Dy), kind=kind, Rc=Rc, Rx=Rx, Dx=Dx, Dy=Dy, big=True, cost=30, facts=dict(kind=kind, Rc=Rc, Rx=Rx, Dx=Dx, Dy=Dy)))
     return out
 
 
@@ -75,7 +83,9 @@ def build_case(shard, vi, seed, ctor="Sigma", prep="fresh"):
     return cond, kw, p_x, (Me, be, Sye, mx, Sx)
 
 
-def value_indices(tier):
+def value_indices(tier, shard=None):
+    if shard is not None and shard.get("big"):
+        return [0, 100]
     ncat, ngen = NVAL[tier]
     return list(range(ncat)) + [100 + g for g in range(ngen)]
 
@@ -85,7 +95,7 @@ def run(shard, ctx, which):
     tier = shard["tier"]
     kind, Rc, Rx, Dx, Dy = (shard[k] for k in ("kind", "Rc", "Rx", "Dx", "Dy"))
     R = Rc * Rx
-    for vi in value_indices(tier):
+    for vi in value_indices(tier, shard):
       for ctor in ctors_for(kind):
         # the non-default constructor variants run on the first catalogue entry and the seed-generic one
         if ctor != "Sigma" and vi not in (0, 100):
